@@ -29,6 +29,7 @@ EXTENDS Integers, Sequences, FiniteSets, TLC, Json
 CONSTANTS MaxDesc,     \* longest layout (3)
           EmMaxDesc,   \* layouts up to this length carry every combination of EncryptionMethod lists
           EmLong,      \* TRUE: longer layouts carry every list class too, the same on all their descriptors
+          LongCerts,   \* certificate classes of the descriptors of those longer layouts
           Parts,       \* subset of {"idp", "sp"}
           Selection    \* "pinned" (first pass stops at the first use="encryption" descriptor, whatever it holds)
                        \* | "fixed" (first pass skips descriptors without a non-empty first certificate)
@@ -49,8 +50,12 @@ FirstPassIndexesBlind == Selection = "pinned"
 Uses  == {"encryption", "omitted", "signing"}
 \* validRSAChain: the SP's RSA certificate followed, in the same X509Data, by the certificate of its
 \* issuer - the SP holds the private key of the first only
-Certs == {"validRSA", "validRSAChain", "validEC", "malformedBase64", "badDER", "emptyString", "whitespaceOnly", "noX509CertificateElement"}
-GoodRSA(ct) == ct \in {"validRSA", "validRSAChain"}
+\* validRSANotYet / validRSAExpired: the SP's RSA certificate as seen by an IdP whose clock is in front of its
+\* notBefore (a roll-over certificate published ahead of time, a young self-signed one and a clock a little behind) /
+\* beyond its notAfter.  The SP holds the key all the same; the statement has no "no usable key, so plaintext"
+Certs == {"validRSA", "validRSAChain", "validRSANotYet", "validRSAExpired", "validEC", "malformedBase64", "badDER", "emptyString",
+          "whitespaceOnly", "noX509CertificateElement"}
+GoodRSA(ct) == ct \in {"validRSA", "validRSAChain", "validRSANotYet", "validRSAExpired"}
 \* the EncryptionMethod children of the KeyDescriptor (what the SP says it can decrypt).  The IdP
 \* encrypts with aes128-cbc / rsa-oaep-mgf1p whatever is listed; no action below reads the field - a
 \* descriptor advertises its key with any list, and the statement knows no fallback to plaintext
@@ -60,7 +65,7 @@ EMs == {"none",            \* no EncryptionMethod child
         "gcmOaepOnly"}     \* lists aes128-gcm and a key transport only
 Desc(u, ct, e) == [use |-> u, cert |-> ct, em |-> e]
 Descs   == { Desc(u, ct, e) : u \in Uses, ct \in Certs, e \in EMs }
-DescsOf(e) == { Desc(u, ct, e) : u \in Uses, ct \in Certs }
+DescsOf(e) == { Desc(u, ct, e) : u \in Uses, ct \in LongCerts }
 Layouts == UNION { [1..n -> Descs] : n \in 0..EmMaxDesc }
            \cup UNION { [1..n -> DescsOf(e)] : n \in (EmMaxDesc + 1)..MaxDesc, e \in (IF EmLong THEN EMs ELSE {"none"}) }
 
